@@ -106,11 +106,7 @@ func (v *ErrorScopeVariables) Get(s context.Scope, name string) (value.Value, er
 		}
 		return &value.Boolean{Value: false}, nil
 	case REQ_BACKEND_NAME:
-		var name string
-		if v.ctx.Backend != nil {
-			name = v.ctx.Backend.Value.Name.Value
-		}
-		return &value.String{Value: name}, nil
+		return &value.String{Value: getBackendName(v.ctx.Backend)}, nil
 	case REQ_BACKEND_PORT:
 		return getBackendPort(v.ctx.Backend)
 	case BERESP_BACKEND_HOST:
